@@ -180,9 +180,9 @@ def k2_to_dof(k2,p=95):
         34.3578842438992...
         
     """
-    if k2 <= 0:
+    if not k2 > 0:
         raise RuntimeError( "invalid k:  {}".format(k2) ) 
-    if p <= 0 or p >= 100:
+    if not (p > 0 and p < 100):
         raise RuntimeError( "invalid p: {}".format(p) )
     else:
         p = p / 100.0     
@@ -208,7 +208,7 @@ def k2_factor_sq(df=inf,p=95):
             56.99999999999994
     
     """
-    if p <= 0 or p >= 100:
+    if not (p > 0 and p < 100):
         raise RuntimeError( "invalid p: {}".format(p) )
 
     p = p / 100.0
@@ -248,7 +248,7 @@ def k_factor(df=inf,p=95):
         3.182446305284263
 
     """
-    if p <= 0.0 or p >= 100.0:
+    if not (p > 0.0 and p < 100.0):
         raise RuntimeError( "invalid p: {}".format( p ) )
     
     p = (1.0 + p/100.0)/2.0
@@ -281,9 +281,9 @@ def k_to_dof(k,p=95):
         60.4375644...
 
     """
-    if k <= 0:
+    if not k > 0:
         raise RuntimeError( "invalid k:  {}".format( k ) )  
-    if p <= 0 or p >= 100:
+    if not (p > 0 and p < 100):
         raise RuntimeError( "invalid p: {}".format( p ) )
     else:
         p = (1.0 + p/100.0)/2.0         
